@@ -1690,6 +1690,15 @@ type (
 )
 
 // ExecContext overrides the wrapped schema.ExecQuerier to not execute any SQL.
+// ScanStmts implements the migrate.StmtScanner interface: the files are
+// split into statements the way the wrapped driver splits them on a real run.
+func (d dryRunDriver) ScanStmts(input string) ([]*migrate.Stmt, error) {
+	if s, ok := d.Driver.(migrate.StmtScanner); ok {
+		return s.ScanStmts(input)
+	}
+	return migrate.Stmts(input)
+}
+
 func (dryRunDriver) ExecContext(context.Context, string, ...any) (sql.Result, error) {
 	return nil, nil
 }
